@@ -96,6 +96,8 @@ func init() {
 	// hostnames that the registry-address library accepts for comparison but cannot convert for display
 	c19Tricky = append(c19Tricky,
 		strings.Repeat("k", 64)+"テ.example.com/a/b/c", strings.Repeat("k", 2000)+"テ0.テ0/0/0/0", strings.Repeat("テ", 64)+".example.com/a/b/c@1.0.0",
+		// URL authorities that net/url prints in a form it does not read back
+		"https://[%25é]/m.tgz", "https://[fe80::1%25en0]/m.tgz", "git::https://[::1%25テ]:8080/r.git//sub", "https://[::1%2525]/x.zip", "https://h%41st.example.com/x.tgz", "https://example.com:%38%30/x.tgz", "git::ssh://[%25]/r.git", "https://[::1%25%00]/x.tgz", "https://[v1.x]/x.tgz", "hg::http://[::ffff:1.2.3.4%25é]/r",
 		strings.Repeat("a", 64)+".example.com/a/b/c", strings.Repeat("a.", 130)+"com/a/b/c", "xn--"+strings.Repeat("a", 60)+".com/a/b/c", "。/0/0/0", "a.\ufeff.com/ns/n/s")
 }
 
